@@ -4,6 +4,8 @@ import Proofs.C16Msgpack
 import Proofs.C16Cbor
 import Proofs.C16Bencode
 import Proofs.C16Bson
+import Proofs.C16Json
+import Proofs.C16Ber
 import FqModel.Serial.SourcePins
 import FqModel.Gen.SerialTables
 /-!
@@ -30,11 +32,16 @@ import FqModel.Gen.SerialTables
           by `cbor_all_values` still covers every in-domain value) and the full (a)–(c) for the one-line
           repair (`cborFixed_*`; same U+FEFF restriction).
   bson: `bson_roundtrip_partial` (names/strings without NUL — `bson_string_nul_cut_witness`, known finding
-  bson-string-nul-cut — and without leading U+FEFF), `bson_prefix_fails`, `bson_trailing`.
-  NOT modelled / not proved (monitored by the harness only): asn1_ber and the text formats
-  (json, jsonl, yaml, toml, xml, csv); cbor semantic tags (their torepr is the decode tree, not a JSON-like
-  value).  msgpack ext8/fixext (raw byte string) and cbor undefined/unassigned simple values (null) are wire
-  forms of the theorems; ext16/ext32 are mis-decoded (`msgpack_ext_length_witness`, known finding).
+  bson-string-embedded-nul — and without leading U+FEFF), `bson_prefix_fails`, `bson_trailing`.
+  json (fragment without floats): `json_decode_roundtrip`, `json_trailing_is_error`, `json_truncated_is_error`.
+  asn1_ber: `ber_roundtrip_partial`, `ber_prefix_fails`, `ber_trailing` (definite and indefinite forms; zero
+  definite lengths excluded: `ber_zero_length_witness`, known finding asn1-ber-zero-length).
+  NOT modelled / not proved (monitored by the harness only): json floats and the other text formats
+  (json, jsonl, yaml, toml, xml, csv).  cbor semantic tags are wire forms of the TREE-level theorems
+  (`cbor_tree_roundtrip_partial`, `cbor_prefix_fails_partial`): their torepr is the decode tree, not a value
+  (`noTag` in the torepr-level theorems).  msgpack ext8/16/32 and fixext (raw byte string) and cbor undefined/unassigned simple values (null) are wire
+  forms of the theorems (`msgpack_ext_width_witness` pins the fixed ext16/ext32 length); cbor `f8 nn` does not
+  consume its argument (`cbor_simple8_witness`, known finding cbor-simple-value-argument).
   Regenerated facts: `msgpack_rows_regenerated`, `msgpack_table_partition`, `msgpack_symbols_regenerated`,
   `*_source_regenerated`, `cbor_constants_regenerated` tie the models to the current source text.
 -/
@@ -67,12 +74,12 @@ theorem msgpack_full_roundtrip_false :
   have h3 := congrArg (fun r => match r with | Res.ok (V.str s, _) => s.length | _ => 0) h1
   simp at h3
 
-/-- KNOWN FINDING `msgpack-ext-length`, pinned by evaluation: `extFn(lengthBits)` ignores its argument and always
-    reads an 8-bit length, so ext16 `c8 0003 05 "abc"` is decoded as length 0, type 3, empty data, and the rest
-    (`05 61 62 63`) is left over as trailing data; ext8 `c7 03 05 "abc"` is right -/
-theorem msgpack_ext_length_witness :
-    decode [0xc8, 0x00, 0x03, 0x05, 0x61, 0x62, 0x63] = .ok (.str [], [0x05, 0x61, 0x62, 0x63]) ∧
-    decode [0xc9, 0x00, 0x00, 0x00, 0x03, 0x05, 0x61, 0x62, 0x63] = .ok (.str [], [0x00, 0x03, 0x05, 0x61, 0x62, 0x63]) ∧
+/-- the fix of `msgpack-ext-length-width` (commit 349ab12e) is what the model has: ext16 / ext32 read a 16 / 32-bit
+    length (before, `extFn` read 8 bits whatever its argument: `c8 0003 05 "abc"` gave length 0, type 3 and left
+    `05 61 62 63` over) -/
+theorem msgpack_ext_width_witness :
+    decode [0xc8, 0x00, 0x03, 0x05, 0x61, 0x62, 0x63] = .ok (.str [0x61, 0x62, 0x63], []) ∧
+    decode [0xc9, 0x00, 0x00, 0x00, 0x03, 0x05, 0x61, 0x62, 0x63] = .ok (.str [0x61, 0x62, 0x63], []) ∧
     decode [0xc7, 0x03, 0x05, 0x61, 0x62, 0x63] = .ok (.str [0x61, 0x62, 0x63], []) :=
   ⟨resEq_sound _ _ (by decide +kernel), resEq_sound _ _ (by decide +kernel), resEq_sound _ _ (by decide +kernel)⟩
 
@@ -121,7 +128,8 @@ example : valid (.map .l16 [(.str .l8 [0x6b], .arr .fix [.int .i32 (-5), .int .u
 example : inDomain (.map [(.str [0x6b], .arr [.int (-(2^63)), .float 0x7ff8000000000001, .bytes [0x80]])]) = true := by
   decide +kernel
 example : (encode (.arr .l16 [.int .u8 200, .str .l8 [0x61]])).length = 8 := by decide +kernel
-example : valid (.arr .fix [.ext8 5 [0xff, 0x00], .fixext 0xff [1, 2, 3, 4]]) = true := by decide +kernel
+example : valid (.arr .fix [.ext .l8 5 [0xff, 0x00], .ext .l16 0 [], .ext .l32 0x80 [1], .fixext 0xff [1, 2, 3, 4]]) = true := by
+  decide +kernel
 
 end msgpack
 
@@ -171,11 +179,19 @@ theorem cbor_indef_array_40 :
 /-- round trip for the code AS IT IS, for every wire tree without an indefinite-length byte/text string
     (indefinite-length arrays and maps included).  MISSING for the full statement: wire trees with chunked
     strings — false of the current code (`cbor_full_roundtrip_false`), known finding `cbor-indef-string-break`. -/
-theorem cbor_roundtrip_partial (x : W) (h : valid x = true) (hn : noIndefStr x = true) (rest : Bytes) :
-    decode (encode x ++ rest) = .ok (norm (value x), rest) := by
+theorem cbor_roundtrip_partial (x : W) (h : valid x = true) (hn : noIndefStr x = true) (ht : noTag x = true)
+    (rest : Bytes) : decode (encode x ++ rest) = .ok (norm (value x), rest) := by
   unfold decode
   rw [(Proofs.C16.Cbor.main false ((encode x ++ rest).length + 1)).1 x h (Or.inr hn) (by simp; omega) rest]
-  exact withRepr_ok _ _ (Proofs.C16.Cbor.reprOK_value x h)
+  exact withRepr_ok _ _ (Proofs.C16.Cbor.reprOK_value x h ht)
+
+/-- the decode TREE round-trips for wire trees WITH semantic tags too (any tag number, any head form, nested):
+    `torepr` of a tagged item is the decode tree as JSON and not a value, so tags are a statement about the Go
+    decoder only (`V.tagged`), like `cbor_prefix_fails_partial`, which covers them as well -/
+theorem cbor_tree_roundtrip_partial (x : W) (h : valid x = true) (hn : noIndefStr x = true) (rest : Bytes) :
+    dropRet (decT false ((encode x ++ rest).length + 1) (encode x ++ rest)) = .ok (value x, rest) := by
+  rw [(Proofs.C16.Cbor.main false ((encode x ++ rest).length + 1)).1 x h (Or.inr hn) (by simp; omega) rest]
+  rfl
 
 theorem cbor_prefix_fails_partial (x : W) (h : valid x = true) (hn : noIndefStr x = true) (k : Nat)
     (hk : k < (encode x).length) : decode ((encode x).take k) = .err .eof := by
@@ -184,20 +200,20 @@ theorem cbor_prefix_fails_partial (x : W) (h : valid x = true) (hn : noIndefStr 
   rw [hl, (Proofs.C16.Cbor.main false (k + 1)).2 x h (Or.inr hn) k hk (by omega)]
   rfl
 
-theorem cbor_trailing_partial (x : W) (h : valid x = true) (hn : noIndefStr x = true) (rest : Bytes) :
-    ∃ v, decode (encode x) = .ok (v, []) ∧ decode (encode x ++ rest) = .ok (v, rest) := by
-  refine ⟨norm (value x), ?_, cbor_roundtrip_partial x h hn rest⟩
-  simpa using cbor_roundtrip_partial x h hn []
+theorem cbor_trailing_partial (x : W) (h : valid x = true) (hn : noIndefStr x = true) (ht : noTag x = true)
+    (rest : Bytes) : ∃ v, decode (encode x) = .ok (v, []) ∧ decode (encode x ++ rest) = .ok (v, rest) := by
+  refine ⟨norm (value x), ?_, cbor_roundtrip_partial x h hn ht rest⟩
+  simpa using cbor_roundtrip_partial x h hn ht []
 
 /-- the FULL statement for the repaired decoder (break of an indefinite-length string consumed): every
     wire tree — all argument widths, definite and indefinite lengths, arbitrary chunking, float16/32/64
     (its domain, like every `valid`, leaves out text strings that start with U+FEFF: known finding
     utf8-bom-stripped is a second, independent defect) -/
-theorem cborFixed_roundtrip_partial (x : W) (h : valid x = true) (rest : Bytes) :
+theorem cborFixed_roundtrip_partial (x : W) (h : valid x = true) (ht : noTag x = true) (rest : Bytes) :
     decodeFixed (encode x ++ rest) = .ok (norm (value x), rest) := by
   unfold decodeFixed
   rw [(Proofs.C16.Cbor.main true ((encode x ++ rest).length + 1)).1 x h (Or.inl rfl) (by simp; omega) rest]
-  exact withRepr_ok _ _ (Proofs.C16.Cbor.reprOK_value x h)
+  exact withRepr_ok _ _ (Proofs.C16.Cbor.reprOK_value x h ht)
 
 theorem cborFixed_prefix_fails (x : W) (h : valid x = true) (k : Nat) (hk : k < (encode x).length) :
     decodeFixed ((encode x).take k) = .err .eof := by
@@ -209,13 +225,13 @@ theorem cborFixed_prefix_fails (x : W) (h : valid x = true) (k : Nat) (hk : k < 
 /-- every in-domain value has a valid wire tree without indefinite-length strings, so the `_partial`
     theorems cover every VALUE (what they leave out are alternative chunked encodings of strings) -/
 theorem cbor_all_values_partial (v : V) (h : inDomain v = true) :
-    valid (canon v) = true ∧ value (canon v) = v ∧ noIndefStr (canon v) = true :=
+    valid (canon v) = true ∧ value (canon v) = v ∧ noIndefStr (canon v) = true ∧ noTag (canon v) = true :=
   Proofs.C16.Cbor.canon_ok v h
 
 theorem cbor_roundtrip_value_partial (v : V) (h : inDomain v = true) (rest : Bytes) :
     decode (encode (canon v) ++ rest) = .ok (norm v, rest) := by
-  have ⟨h1, h2, h3⟩ := cbor_all_values_partial v h
-  rw [cbor_roundtrip_partial _ h1 h3 rest, h2]
+  have ⟨h1, h2, h3, h4⟩ := cbor_all_values_partial v h
+  rw [cbor_roundtrip_partial _ h1 h3 h4 rest, h2]
 
 /-! non-vacuity: indefinite array and map, all head widths, float16, chunked strings (for the repaired variant) -/
 example : valid (.arrI [.int .h16 (-300), .mapI [(.str .h8 [0x6b], .f16 0x3c00)], .arr .h64 [.bytes .h32 [1, 2]],
@@ -223,6 +239,9 @@ example : valid (.arrI [.int .h16 (-300), .mapI [(.str .h8 [0x6b], .f16 0x3c00)]
     noIndefStr (.arrI [.int .h16 (-300), .mapI [(.str .h8 [0x6b], .f16 0x3c00)], .arr .h64 [.bytes .h32 [1, 2]],
     .int .direct 23, .null]) = true := by decide +kernel
 example : valid (.arr .direct [.undefined, .simple 19, .simple 0]) = true := by decide +kernel
+example : valid (.tag .h16 55799 (.arrI [.tag .direct 2 (.bytes .direct [1, 0]), .tag .h64 1 (.int .h32 1363896240)])) = true ∧
+    noIndefStr (.tag .h16 55799 (.arrI [.tag .direct 2 (.bytes .direct [1, 0]), .tag .h64 1 (.int .h32 1363896240)])) = true := by
+  decide +kernel
 example : valid (.arr .direct [.strI [(.h8, [0x61]), (.direct, []), (.direct, [0xc3, 0xa9])], .bytesI []]) = true := by
   decide +kernel
 example : inDomain (.map [(.str [0x6b], .arr [.int (-(2^64)), .int (2^64 - 1), .float 1, .bytes [0x80]])]) = true := by
@@ -274,7 +293,7 @@ end bencode
 section bson
 open FqModel.Serial.Bson
 
-/-- KNOWN FINDING `bson-string-nul-cut`, pinned by evaluation: a bson string is length-prefixed and may contain
+/-- KNOWN FINDING `bson-string-embedded-nul`, pinned by evaluation: a bson string is length-prefixed and may contain
     U+0000, but fq reads it with `d.FieldUTF8NullFixedLen` and cuts it at the first NUL: {"k": "a\u0000b"} comes
     back as {"k": "a"}.  Also pinned: the document terminator is not checked (`UintValidate` only annotates) and
     a binary value comes back as the raw bytes (`tovalue`, not `tostring`). -/
@@ -326,6 +345,132 @@ example : valid (.doc [([0x61], .int32 (-5)), ([0x62], .arr [([0x78], .int64 (2^
 example : encode [([0x61], .bool 2)] 0 = [9, 0, 0, 0, 0x08, 0x61, 0, 2, 0] := by decide +kernel
 
 end bson
+
+/-! ## json (the modelled fragment: no floats) -/
+section json
+open FqModel.Serial.Json
+
+/-- `fq -d json` gives back every value of the fragment (null, booleans, integers of any size, Unicode strings
+    incl. control characters, arrays, objects with duplicate-free keys) from its compact encoding with an
+    arbitrary white-space string `sp` at every place white space may stand (before/after the document, around
+    every value, key, `:` and `,`, inside empty containers).  Strings must be free of ill-formed UTF-8
+    (`textOk`: those bytes are replaced by U+FFFD); floats are outside the model. -/
+theorem json_decode_roundtrip (sp : Bytes) (x : J) (hsp : wsOk sp = true) (h : valid x = true) :
+    decode (encodeTop sp x) = .ok (value x, []) := by
+  unfold decode encodeTop
+  have hd : Proofs.C16.Json.NumFollow sp := by
+    have := (Proofs.C16.Json.delim_sp sp [] hsp Proofs.C16.Json.delim_nil).numFollow
+    simpa using this
+  have := Proofs.C16.Json.main sp hsp ((sp ++ encode sp x ++ sp).length + 1) x h (by simp; omega) sp sp hsp hd
+  rw [this]
+  have hs : skipWs sp = [] := by simpa [skipWs] using Proofs.C16.Json.skipWs_ws sp [] hsp
+  simp [hs]
+
+/-- trailing data after the top-level value is a decode error (json.go:67-69): any non-white-space byte `c`
+    after the document (if no white space separates it from the value, `c` must not continue a number) -/
+theorem json_trailing_is_error (sp : Bytes) (x : J) (hsp : wsOk sp = true) (h : valid x = true) (c : UInt8) (t : Bytes)
+    (hc : isWs c = false) (hnum : sp ≠ [] ∨ Proofs.C16.Json.NumFollow (c :: t)) :
+    decode (encodeTop sp x ++ c :: t) = .err .fatal := by
+  unfold decode encodeTop
+  have hfollow : Proofs.C16.Json.NumFollow (sp ++ c :: t) := by
+    rcases hnum with hne | hnf
+    · cases sp with
+      | nil => exact absurd rfl hne
+      | cons w sp' =>
+        exact (Proofs.C16.Json.delim_cons w _ (Or.inl (Proofs.C16.Json.wsOk_mem hsp w (by simp)))).numFollow
+    · cases sp with
+      | nil => simpa using hnf
+      | cons w sp' =>
+        exact (Proofs.C16.Json.delim_cons w _ (Or.inl (Proofs.C16.Json.wsOk_mem hsp w (by simp)))).numFollow
+  have := Proofs.C16.Json.main sp hsp ((sp ++ encode sp x ++ sp ++ c :: t).length + 1) x h (by simp; omega) sp
+    (sp ++ c :: t) hsp hfollow
+  simp only [List.append_assoc] at this ⊢
+  rw [this]
+  simp [Proofs.C16.Json.skipWs_starter sp c t hsp hc]
+
+/-- truncated input is a decode error: every strict prefix of the compact encoding (no optional white space) of
+    a value that is not a bare number fails with "unexpected end of input".  (A strict prefix of the bare
+    number `12` is the number `1`: numbers are not self-delimiting; inside arrays and objects they are covered.)
+    Stated for the compact form `encode []`; documents with optional white space are checked by correspondence. -/
+theorem json_truncated_is_error (x : J) (h : valid x = true) (hs : selfDelimiting x = true) (k : Nat)
+    (hk : k < (encode [] x).length) : decode ((encode [] x).take k) = .err .eof := by
+  unfold decode
+  have hl : ((encode [] x).take k).length = k := by simp [List.length_take]; omega
+  rw [hl]
+  rcases Proofs.C16.Json.main_pf0 (k + 1) x h k hk (by omega) with h1 | ⟨h2, _⟩
+  · simp only [Proofs.C16.Json.enc0] at h1
+    rw [h1]
+  · rw [hs] at h2; cases h2
+
+/-! non-vacuity -/
+example : valid (.obj [([0x61], .arr [.int (-12), .str [0x01, 0x22, 0xc3, 0xa9], .null, .bool true, .obj []]), ([], .arr [])]) = true := by
+  decide +kernel
+example : encodeTop [0x20] (.arr [.int 1, .str [0x0a]]) =
+    [0x20, 0x5b, 0x20, 0x31, 0x20, 0x2c, 0x20, 0x22, 0x5c, 0x75, 0x30, 0x30, 0x30, 0x61, 0x22, 0x20, 0x5d, 0x20] := by decide +kernel
+
+end json
+
+/-! ## asn1_ber -/
+section ber
+open FqModel.Serial.Ber
+
+/-- KNOWN FINDING `asn1-ber-zero-length`, pinned by evaluation of the as-is model: `decodeLength` returns 0 for a
+    definite length of zero as well as for the indefinite form, and 0 is taken to mean "indefinite": the empty
+    SEQUENCE `30 00` wants an end-of-contents marker (error), the empty OCTET STRING `04 00` is "primitive with
+    indefinite length" (error), and in `30 05 30 00 02 01 05` = SEQUENCE { SEQUENCE {}, INTEGER 5 } the empty
+    inner sequence swallows its sibling.  The repair (only 0x80 is indefinite) decodes all three. -/
+theorem ber_zero_length_witness :
+    decode [0x30, 0x00] = .err .eof ∧
+    decode [0x04, 0x00] = .err .fatal ∧
+    decode [0x30, 0x05, 0x30, 0x00, 0x02, 0x01, 0x05] = .err .eof ∧
+    decodeFixed [0x30, 0x00] = .ok (.arr [], []) ∧
+    decodeFixed [0x04, 0x00] = .ok (.str [], []) ∧
+    decodeFixed [0x30, 0x05, 0x30, 0x00, 0x02, 0x01, 0x05] = .ok (.arr [.arr [], .int 5], []) :=
+  ⟨resEq_sound _ _ (by decide +kernel), resEq_sound _ _ (by decide +kernel), resEq_sound _ _ (by decide +kernel),
+   resEq_sound _ _ (by decide +kernel), resEq_sound _ _ (by decide +kernel), resEq_sound _ _ (by decide +kernel)⟩
+
+/-- round trip for the code AS IT IS, for every wire tree (BOOLEAN with any non-zero octet for TRUE, INTEGER of any
+    size with redundant sign octets, OCTET STRING, NULL, the nine string types read with FieldUTF8, SEQUENCE / SET /
+    constructed application-, context- and private-class values; short and long — also non-minimal — definite
+    lengths, the indefinite form with end-of-contents) and every trailing data.
+    MISSING for the full statement: `valid` excludes definite lengths of ZERO other than NULL — empty strings and
+    empty definite-length containers are mis-decoded (`ber_zero_length_witness`, known finding
+    asn1-ber-zero-length; empty containers in the indefinite form are covered) — and strings that start with
+    U+FEFF (utf8-bom-stripped).  BIT STRING, OID, REAL, constructed strings are outside the model. -/
+theorem ber_roundtrip_partial (x : W) (h : valid x = true) (rest : Bytes) :
+    decode (encode x ++ rest) = .ok (norm (value x), rest) := by
+  unfold decode
+  rw [(Proofs.C16.Ber.main false ((encode x ++ rest).length + 1)).1 x h (by simp; omega) rest]
+  exact withRepr_ok _ _ (Proofs.C16.Ber.reprOK_value x)
+
+/-- every strict prefix of an encoding (definite or indefinite form) is a decode error -/
+theorem ber_prefix_fails (x : W) (h : valid x = true) (k : Nat) (hk : k < (encode x).length) :
+    decode ((encode x).take k) = .err .eof := by
+  unfold decode
+  have hl : ((encode x).take k).length = k := by simp [List.length_take]; omega
+  rw [hl, (Proofs.C16.Ber.main false (k + 1)).2 x h k hk (by omega)]
+  rfl
+
+theorem ber_trailing (x : W) (h : valid x = true) (rest : Bytes) :
+    ∃ v, decode (encode x) = .ok (v, []) ∧ decode (encode x ++ rest) = .ok (v, rest) := by
+  refine ⟨norm (value x), ?_, ber_roundtrip_partial x h rest⟩
+  simpa using ber_roundtrip_partial x h []
+
+/-- the same wire trees round-trip through the repaired decoder too (the repair does not disturb them) -/
+theorem berFixed_roundtrip_partial (x : W) (h : valid x = true) (rest : Bytes) :
+    decodeFixed (encode x ++ rest) = .ok (norm (value x), rest) := by
+  unfold decodeFixed
+  rw [(Proofs.C16.Ber.main true ((encode x ++ rest).length + 1)).1 x h (by simp; omega) rest]
+  exact withRepr_ok _ _ (Proofs.C16.Ber.reprOK_value x)
+
+/-! non-vacuity: indefinite and definite (short, long, non-minimal long) forms, big INTEGER with a redundant
+    sign octet, SET, context tag, empty indefinite container -/
+example : valid (.seqI false [.int (.long 2) (-(2^70)) 10, .seq true (.long 1) [.bool .short 0x80, .null (.long 1)],
+    .tagged 2 3 .short [.str 0x0c .short [0xc3, 0xa9], .octets (.long 8) [0, 0xff]], .seqI true [], .taggedI 1 30 [.null .short]]) = true := by
+  decide +kernel
+example : encode (.seq false .short [.int .short (-129) 2]) = [0x30, 0x04, 0x02, 0x02, 0xff, 0x7f] := by decide +kernel
+
+end ber
 
 /-! ## regenerated facts (FqModel/Gen/SerialTables.lean is rewritten from /repo on every run) -/
 section regenerated
@@ -390,6 +535,17 @@ theorem bson_source_regenerated :
   decide +kernel
 
 theorem bson_constants_regenerated : FqModel.Gen.SerialTables.bsonConsts = Pins.bsonConsts := by
+  decide +kernel
+
+theorem json_source_regenerated :
+    FqModel.Gen.SerialTables.jsonDecodeEx = Pins.jsonDecodeEx := by
+  decide +kernel
+
+theorem ber_source_regenerated :
+    FqModel.Gen.SerialTables.berDecodeLength = Pins.berDecodeLength ∧
+    FqModel.Gen.SerialTables.berDecodeTagNumber = Pins.berDecodeTagNumber ∧
+    FqModel.Gen.SerialTables.berValue = Pins.berValue ∧
+    FqModel.Gen.SerialTables.berJq = Pins.berJq := by
   decide +kernel
 
 end regenerated
